@@ -144,7 +144,7 @@ class Uniform(Prior):
         name : string or None, optional
             The name of the parameter.
         """
-        if lower_bound >= upper_bound:
+        if not lower_bound < upper_bound:       # (false for NaN bounds too)
             raise ParameterSpecificationError(
                     "Lower bound {} is not less than upper bound {}".format(
                     lower_bound, upper_bound))
@@ -168,7 +168,7 @@ class Uniform(Prior):
                 self.guess = upper_bound
             else:
                 self.guess = 0
-        elif guess < lower_bound or guess > upper_bound:
+        elif not lower_bound <= guess <= upper_bound:
             raise ParameterSpecificationError(
                     "Guess {} is not within bounds {} and {}.".format(
                     guess, lower_bound, upper_bound))
@@ -217,9 +217,12 @@ class Gaussian(Prior):
         """
         self.mu = mu
         self.sd = sd
-        if sd <= 0:
+        if not 0 < sd < np.inf:                 # (false for a NaN sd too)
             raise ParameterSpecificationError(
                     "Specified sd of {} is not greater than 0".format(sd))
+        if not np.isfinite(mu):
+            raise ParameterSpecificationError(
+                    "Specified mean of {} is not a finite number".format(mu))
         self.name = name
         self._lnprob_normalization = -np.log(self.sd * np.sqrt(2*np.pi))
 
@@ -270,7 +273,8 @@ class BoundedGaussian(Gaussian):
             The name of the parameter.
         """
 
-        if mu < lower_bound or mu > upper_bound or lower_bound == upper_bound:
+        if (not lower_bound <= mu <= upper_bound or
+                not lower_bound < upper_bound):
             raise ParameterSpecificationError(
                 "Lower bound {} must be less than mean {}. Upper bound {} must"
                 " be greater than mean.")
